@@ -65,6 +65,18 @@ type op struct {
 	run      func(e *env) string
 }
 
+// opGroup: the field (or oneof) an operation touches; "?unknown" for the unknown set. Keyed by type and operation name.
+var (
+	opGroupMu sync.Mutex
+	opGroup   = map[string]string{}
+)
+
+func groupOfOp(md protoreflect.MessageDescriptor, o *op) string {
+	opGroupMu.Lock()
+	defer opGroupMu.Unlock()
+	return opGroup[string(md.FullName())+"\x00"+o.name]
+}
+
 func fdIn(e *env, fd protoreflect.FieldDescriptor) protoreflect.FieldDescriptor {
 	return e.m.Descriptor().Fields().ByNumber(fd.Number())
 }
@@ -84,10 +96,23 @@ func always(*env) bool { return true }
 
 func genOps(md protoreflect.MessageDescriptor) []op {
 	var ops []op
-	add := func(o op) { ops = append(ops, o) }
+	curGroup := ""
+	add := func(o op) {
+		opGroupMu.Lock()
+		opGroup[string(md.FullName())+"\x00"+o.name] = curGroup
+		opGroupMu.Unlock()
+		ops = append(ops, o)
+	}
+	groupOf := func(fd protoreflect.FieldDescriptor) string {
+		if od := fd.ContainingOneof(); od != nil && !od.IsSynthetic() {
+			return "oneof:" + string(od.Name())
+		}
+		return string(fd.Name())
+	}
 	fs := md.Fields()
 	for i := 0; i < fs.Len(); i++ {
 		fd := fs.Get(i)
+		curGroup = groupOf(fd)
 		name := string(fd.Name())
 		shape := shapeOf(fd)
 		isMsg := fd.Kind() == protoreflect.MessageKind
@@ -322,6 +347,7 @@ func genOps(md protoreflect.MessageDescriptor) []op {
 	// mutation through the value handed to a Range callback (legal for the field being visited)
 	for i := 0; i < fs.Len(); i++ {
 		fd := fs.Get(i)
+		curGroup = groupOf(fd)
 		name := string(fd.Name())
 		shape := shapeOf(fd)
 		populated := func(e *env) bool { return e.m.Has(fdIn(e, fd)) }
@@ -374,6 +400,7 @@ func genOps(md protoreflect.MessageDescriptor) []op {
 			}
 		}
 	}
+	curGroup = "?unknown"
 	unk := enum.UnknownAlphabet(md, enum.Reduced)[0]
 	add(op{"SetUnknown(rec)", "SetUnknown", true, always, func(e *env) string {
 		e.m.SetUnknown(append(protoreflect.RawFields(nil), unk...))
@@ -604,7 +631,9 @@ type searchStats struct {
 	states, transitions, pruned, traces, invalid atomic.Int64
 }
 
-func search(h *hz.H, md protoreflect.MessageDescriptor, maxDepth int, st *searchStats, stateCap int64) (completedDepth int) {
+// search explores histories over all operations of the type (only == "") or over the operations of one
+// field / oneof group.
+func search(h *hz.H, md protoreflect.MessageDescriptor, maxDepth int, st *searchStats, stateCap int64, only string) (completedDepth int) {
 	ops := genOps(md)
 	byName := map[string]int{}
 	for i := range ops {
@@ -620,10 +649,13 @@ func search(h *hz.H, md protoreflect.MessageDescriptor, maxDepth int, st *search
 	for depth := 1; depth <= maxDepth; depth++ {
 		var next [][]int
 		capped := false
-		h.Par(int64(len(frontier)), fmt.Sprintf("%s depth %d", tname, depth), func(i int64) {
+		h.Par(int64(len(frontier)), fmt.Sprintf("%s %s depth %d", tname, only, depth), func(i int64) {
 			parent := frontier[i]
 			for oi := range ops {
 				o := &ops[oi]
+				if only != "" && groupOfOp(md, o) != only {
+					continue
+				}
 				t, ok := runHistory(md, ops, byName, parent, false)
 				if !ok {
 					return // cannot happen: parents were reached without pruning; defensive
@@ -734,10 +766,10 @@ func runC08(h *hz.H) {
 	}
 	types := enum.TypesMatching(os.Getenv("VERIF_TYPES"))
 	var st searchStats
-	mainDepth, otherDepth := 3, 2
+	mainDepth, otherDepth, focusDepth := 3, 2, 4
 	stateCap := int64(60000)
 	if h.Thorough() {
-		mainDepth, otherDepth = 5, 3
+		mainDepth, otherDepth, focusDepth = 5, 3, 6
 		stateCap = 3000000
 	}
 	var notes []string
@@ -752,10 +784,32 @@ func runC08(h *hz.H) {
 		if h.Thorough() && md.Fields().Len() > 30 {
 			d = 2
 		}
-		done := search(h, md, d, &st, stateCap)
+		done := search(h, md, d, &st, stateCap, "")
 		notes = append(notes, fmt.Sprintf("%s: %d operations, depth %d of %d completed", md.FullName(), len(genOps(md)), done, d))
 		if done < d {
 			h.Cap(fmt.Sprintf("%s: depth %d not completed", md.FullName(), d))
+		}
+		// focused searches: histories confined to one field (or one oneof) go deeper
+		if os.Getenv("VERIF_LITE") == "" {
+			groups := []string{}
+			seenG := map[string]bool{}
+			for _, o := range genOps(md) {
+				o := o
+				if g := groupOfOp(md, &o); !seenG[g] && g != "?unknown" {
+					seenG[g] = true
+					groups = append(groups, g)
+				}
+			}
+			okAll := true
+			for _, g := range groups {
+				if fdone := search(h, md, focusDepth, &st, stateCap, g); fdone < focusDepth {
+					okAll = false
+				}
+			}
+			notes = append(notes, fmt.Sprintf("%s: %d single-field/oneof searches to depth %d (all completed: %v)", md.FullName(), len(groups), focusDepth, okAll))
+			if !okAll {
+				h.Cap(fmt.Sprintf("%s: a focused search did not complete depth %d", md.FullName(), focusDepth))
+			}
 		}
 	}
 	h.Rep.Bounds["search"] = notes
@@ -767,6 +821,6 @@ func runC08(h *hz.H) {
 	if st.states.Load() < 500 {
 		h.InternalError("vacuous: fewer than 500 distinct reference states")
 	}
-	h.Rep.Rule = "breadth-first search over histories of mutating protoreflect operations (Set with 2 values per scalar / 0-2 element lists / 0-1 entry maps / empty and filled messages, Clear, Mutable keeping a live view, SetUnknown; on a live view: Append, AppendMutable, Set, Truncate, Map.Set/Clear/Mutable, nested Set/Clear), deduplicated on (canonical reference state, set of live views, what the values earlier handed to Set read as); every transition replayed on fresh fast / slow / dyn objects, once plainly and once with the generated message read, sized and marshalled after every earlier step, and followed by the full read battery (Has, Get, NewField, WhichOneof, Range, GetUnknown, out-of-range list read, live views, values earlier handed to Set, struct state, deterministic bytes); non-trivial = every transition; distinct = hash(type, history)"
+	h.Rep.Rule = "breadth-first search (over all operations of a type to the stated depth, and over the operations of each single field / oneof to a larger depth) over histories of mutating protoreflect operations (Set with 2 values per scalar / 0-2 element lists / 0-1 entry maps / empty and filled messages, Clear, Mutable keeping a live view, SetUnknown; on a live view: Append, AppendMutable, Set, Truncate, Map.Set/Clear/Mutable, nested Set/Clear), deduplicated on (canonical reference state, set of live views, what the values earlier handed to Set read as); every transition replayed on fresh fast / slow / dyn objects, once plainly and once with the generated message read, sized and marshalled after every earlier step, and followed by the full read battery (Has, Get, NewField, WhichOneof, Range, GetUnknown, out-of-range list read, live views, values earlier handed to Set, struct state, deterministic bytes); non-trivial = every transition; distinct = hash(type, history)"
 	h.Rep.Assumptions = []string{"reference models: dynamicpb and protobuf-go struct reflection over a second struct; a step is judged only when they agree with each other (otherwise counted as pruned_impl_defined and not extended)", "views whose field was Cleared/Set again (stale views) are released by the harness: their behaviour is implementation-defined in protobuf-go"}
 }
